@@ -10,6 +10,7 @@ Spec:   LianVerif/Spec/ClassicalRD.lean (path-based reaching definitions).
 What is proved, at which strength (see NOTES-C06.md):
 * about the code's model `rdWith v` (every CFG, every budget, both work-list variants):
   `C06_run_finishes` (the visit loop terminates within the fuel), `C06_visit_budget`,
+  `C06_use_site_is_projection` (what is handed to the use sites is the projection of the in set),
   `C06_no_dead_defs_partial` — soundness of kill, under the run-time hypothesis that the
   `if key in current_bits: continue` shortcut was never taken (`skips = 0`, reported by the driver
   for every compared method); the unrestricted statement is false for the model
@@ -179,6 +180,24 @@ theorem C06_run_finishes (v : Variant) (I : Input) : (rdWith v I).finished = tru
   have := run_finishes v I (mkGraph I.rawEdges) (runFuel I (mkGraph I.rawEdges)) (init (mkGraph I.rawEdges))
     (init_mu I _ (mkGraph_first_le _))
   simp [this]
+
+/-- **C06 (use-site layer).**  What `check_reachable_symbol_defs` hands to the symbol graph and to the
+state computation at a use of `sym` — `available_symbol_defs & frame.defined_symbols[sym]` — is exactly
+the projection of the statement's in set on `sym`: at the final in set and at the in set of *every*
+visit, for every CFG and both work-list variants.  (The harness checks the same identity on every real
+call of `check_reachable_symbol_defs`.) -/
+theorem C06_use_site_is_projection (v : Variant) (I : Input) (sym : Int) :
+    (∀ u, useSite (register I) ((rdWith v I).ins u) sym = ((rdWith v I).ins u).filter (fun d => d.1 == sym)) ∧
+    (∀ l ∈ (rdWith v I).inTrace, useSite (register I) l sym = l.filter (fun d => d.1 == sym)) := by
+  have h := run_reg v I (mkGraph I.rawEdges) (runFuel I (mkGraph I.rawEdges)) (init (mkGraph I.rawEdges))
+    ⟨by intro u d hd; simp [init] at hd, by intro u d hd; simp [init] at hd, by intro l hl; simp [init] at hl⟩
+  constructor
+  · intro u
+    exact useSite_eq_filter (fun d hd => h.2.1 u d hd) sym
+  · intro l hl
+    have hl' : l ∈ (run v I (mkGraph I.rawEdges) (runFuel I (mkGraph I.rawEdges)) (init (mkGraph I.rawEdges))).inTrace := by
+      simpa [rdWith] using hl
+    exact useSite_eq_filter (fun d hd => h.2.2 l hl' d hd) sym
 
 /-! ### 2. Idealised solvers: soundness of kill, certified fixpoint check, exactness -/
 
